@@ -51,7 +51,15 @@ def ly_track(t):
 def xml_tree(c, share=False):
     import xml.etree.ElementTree as ET
     from mingus.extra import musicxml
-    text = musicxml.from_Composition(mk_comp(c, share))
+    comp = mk_comp(c, share)
+    def snap():
+        return [[[(e[0], e[1], None if e[2] is None else [(n.name, n.octave) for n in getattr(e[2], "notes", e[2])])
+                  for e in b.bar] for b in t.bars] for t in comp.tracks]
+    before = snap()
+    text = musicxml.from_Composition(comp)
+    if snap() != before:
+        # an exporter reads the music; one that rewrites it spoils every later export of the same objects
+        raise RuntimeError("the MusicXML export changed the composition it was given")
     root = ET.fromstring(text)
     ids = {}
     def rename(v, prefix):
